@@ -36,8 +36,23 @@ def impl_solve(case):
             return buf
         return r
     meth = BaseBackend._solve_euler if case["solver"] == "euler" else BaseBackend._solve_heun
+    y_init = f(case["y0"])
+    if case.get("backend", "default") == "torch":          # the torch backend's own Euler loop, tensor-valued closure
+        import torch
+        from pyrates.backend.torch.torch_backend import TorchBackend
+        assert case["solver"] == "euler"
+        tA, tb, tvn, tvt = (torch.from_numpy(np.ascontiguousarray(v)) for v in (A, b, vn, vt))
+        tbuf = torch.zeros(len(case["y0"]), dtype=torch.float64)
+        def func(t, y):
+            r = tA @ y + tb + state["n"] * tvn + t * tvt
+            state["n"] += 1
+            if case["aliased"]:
+                tbuf[:] = r
+                return tbuf
+            return r
+        meth, y_init = TorchBackend._solve_euler, torch.from_numpy(y_init)
     try:
-        rec = meth(func, (), float(Fr(case["T"])), float(Fr(case["dt"])), float(Fr(case["dts"])), f(case["y0"]), int(case["t0"]))
+        rec = meth(func, (), float(Fr(case["T"])), float(Fr(case["dt"])), float(Fr(case["dts"])), y_init, int(case["t0"]))
     except (IndexError, ZeroDivisionError, ValueError) as e:
         return _err(e)
     rec = np.asarray(rec, dtype=np.float64)
@@ -61,7 +76,7 @@ def impl_run(case):
         outputs = {f"o{j}": f"n{i}/op/x" for j, i in enumerate(case["cols"])}
         kw = dict(simulation_time=float(Fr(case["T"])), step_size=float(Fr(case["dt"])), solver=case["solver"], outputs=outputs,
                   cutoff=float(Fr(case["cutoff"])), vectorize=case["vectorize"], in_place=False, verbose=False, clear=True,
-                  float_precision="float64", backend="default")
+                  float_precision="float64", backend=case.get("backend", "default"))
         if case["dts"] is not None:
             kw["sampling_step_size"] = float(Fr(case["dts"]))
         try:
@@ -170,7 +185,9 @@ def gen_solve(rng):
     x = Fr(rng.randint(0, 44)) + rng.choice([0, 0, 0, 0, Fr(1, 2), Fr(1, 2), Fr(1, 4), Fr(3, 4)])
     if rng.random() < 0.5:                                   # T a multiple of dts: the record is filled exactly
         x = (dts / dt) * rng.randint(0, max(1, int(40 * dt / dts)))
-    case = dict(kind="solve", solver=rng.choice(["euler", "heun"]), aliased=rng.random() < 0.5, dt=str(dt), dts=str(dts),
+    backend = "torch" if rng.random() < 0.15 else "default"
+    case = dict(kind="solve", solver="euler" if backend == "torch" else rng.choice(["euler", "heun"]), backend=backend,
+                aliased=rng.random() < 0.5, dt=str(dt), dts=str(dts),
                 t0=rng.choice([0, 0, 1, 3, 7]), y0=[str(v) for v in y0], A=[[str(v) for v in r_] for r_ in A],
                 b=[str(v) for v in b], vn=[str(v) for v in vn], vt=[str(v) for v in vt])
     while True:
@@ -198,7 +215,8 @@ def gen_run(rng):
         x = (step / dt) * rng.randint(1, max(1, int(40 * dt / step)))
     ncols = rng.randint(1, nn)
     cols = rng.sample(range(nn), ncols)
-    case = dict(kind="run", solver=rng.choice(["euler", "heun"]), dt=str(dt), dts=None if dts is None else str(dts), nodes=nodes,
+    backend = rng.choice(["default"] * 7 + ["torch", "jax", "jax"])
+    case = dict(kind="run", solver="euler" if backend == "torch" else rng.choice(["euler", "heun"]), backend=backend, dt=str(dt), dts=None if dts is None else str(dts), nodes=nodes,
                 cols=cols, vectorize=rng.random() < 0.5, aliased=True)
     while True:
         T = x * dt
@@ -233,10 +251,18 @@ HEADER = """From Coq Require Import List ZArith QArith Qcanon Bool Arith.
 From PV Require Import History Solver Corr.
 Import ListNotations.
 Local Open Scope nat_scope.
-Record tcase := { isrun : bool; sv : solver; cT : Qc; cdt : Qc; cdts : option Qc; ccut : Qc; ccols : list nat;
+Record tcase := { isrun : bool; isjax : bool; sv : solver; cT : Qc; cdt : Qc; cdts : option Qc; ccut : Qc; ccols : list nat;
                   cy0 : row; crhs : lin_rhs; ct0 : nat }.
 Definition dts_of c := match cdts c with Some d => d | None => cdt c end.
+(* the jax backend's own loops (lax.scan: round(T/dts) outer iterations of store_step inner steps) never overflow
+   the record: their rows are spec_rows itself (C02's theorems are about these loops; here they are only tied) *)
+Definition jax_run (c : tcase) : outcome :=
+  let n := rnd (cT c / dts_of c) in
+  if (n =? 0) then ErrIndex
+  else if negb fixed_D35 && (n =? 1) && (2 <=? length (ccols c)) then ErrShape
+  else Rows (spec_run (lin_f (crhs c)) (sv c) (cT c) (cdt c) (cdts c) (ccut c) (ccols c) (cy0 c) 0).
 Definition implO (c : tcase) : outcome :=
+  if isjax c then jax_run c else
   if isrun c then run_model (lin_f (crhs c)) (sv c) (cT c) (cdt c) (cdts c) (ccut c) (ccols c) (cy0 c) 0
   else solve (lin_f (crhs c)) (sv c) (cT c) (cdt c) (dts_of c) (cy0 c) 0 (ct0 c).
 Definition specO (c : tcase) : outcome :=
@@ -268,7 +294,7 @@ def coq_case(case, out):
     rhs = f"{{| mA := {clist([row(r) for r in A])}; vb := {row(b)}; vn := {row(vn)}; vt := {row(vt)} |}}"
     isrun = case["kind"] == "run"
     cols = case["cols"] if isrun else list(range(len(y0)))
-    t = (f"{{| isrun := {cbool(isrun)}; sv := {'Euler' if case['solver'] == 'euler' else 'Heun'}; "
+    t = (f"{{| isrun := {cbool(isrun)}; isjax := {cbool(case.get('backend') == 'jax')}; sv := {'Euler' if case['solver'] == 'euler' else 'Heun'}; "
          f"cT := {cq(case['T'])}; cdt := {cq(case['dt'])}; cdts := {copt(case['dts'], cq)}; ccut := {cq(case.get('cutoff', 0))}; "
          f"ccols := {clist([cnat(c) for c in cols])}; cy0 := {row(y0)}; crhs := {rhs}; ct0 := {cnat(case.get('t0', 0))} |}}")
     return f"({t}, {coq_outcome(out)})"
@@ -334,8 +360,15 @@ def shrink(ctx, case):
     return best
 
 # ---------------------------------------------------------------------------------------------- check
+def model_switch(name):
+    import re
+    m = re.search(r"^Definition %s : bool := (true|false)\." % name, open(os.path.join(COQ, "theories", "Solver.v")).read(), re.M)
+    return bool(m) and m.group(1) == "true"
+
 def check(ctx):
     pr = proof_gate(ctx, NEEDS)
+    if model_switch("fixed_D35"):
+        ctx.note("model switch fixed_D35 = true: the model is the code with fixes/proposed_fix_C03_D35.diff applied")
     problem = proof_problem(pr)
     n_solve, n_run = (220, 150) if ctx.tier == "quick" else (3000, 2000)
     if problem:
@@ -379,6 +412,7 @@ def check(ctx):
         k = "rows" if isinstance(r, dict) and "rows" in r else (r.get("raised") or r.get("err")) if isinstance(r, dict) else "?"
         outcome_hist[k] = outcome_hist.get(k, 0) + 1
     hist = dict(kind=dict(solve=sum(1 for c in cases if c["kind"] == "solve"), run=sum(1 for c in cases if c["kind"] == "run")),
+                backend={b: sum(1 for c in cases if c.get("backend", "default") == b) for b in ("default", "torch", "jax")},
                 solver=dict(euler=sum(1 for c in cases if c["solver"] == "euler"), heun=sum(1 for c in cases if c["solver"] == "heun")),
                 store_step_gt_1=sum(1 for c in cases if store_step(c) > 1), cutoff_gt_0=sum(1 for c in cases if Fr(c.get("cutoff", 0)) > 0),
                 t0_nonzero=sum(1 for c in cases if int(c.get("t0", 0)) != 0),
@@ -394,10 +428,10 @@ def check(ctx):
                         "permuted/partial outputs); T is an integer, half-integer or quarter multiple of dt (exercises round-half-even), "
                         "dts a multiple of dt (some not, some below dt), cutoff on / between / outside samples; all data dyadic and bounded so that float64 is exact",
                    samples=[c for c in cases[:400] if nontrivial(c)][:3],
-                   extra=dict(input_distribution=hist, impl_vs_model_mismatches=len(badI), impl_vs_spec_mismatches=len(badS)),
+                   extra=dict(model_switches=dict(fixed_D35=model_switch("fixed_D35")), input_distribution=hist, impl_vs_model_mismatches=len(badI), impl_vs_spec_mismatches=len(badS)),
                    trusted_base=["numpy float64 arithmetic is exact on the generated dyadic data (generator-side bound: every intermediate is a multiple of 2^-E below 2^(50-E)); results are compared as exact rationals",
                                  "pandas label slicing .loc[cutoff:, :] and DataFrame construction are modelled (filter index >= cutoff), tied by the run-level cases"],
                    assumptions=["T >= 0, dt > 0, dts > 0; the theorems about values hold under the decidable guards rows_fit, frame_ok; "
                                 "outside them the model predicts the error class and the real code is required to raise exactly that",
                                 "IEEE rounding is outside the model: the model computes in Qc",
-                                "default backend only (torch/jax overrides of the solvers are C02's subject); adaptive solvers are not covered by any theorem"])
+                                "theorems are about the default backend's loops; the torch Euler loop (direct calls and run) and the jax Euler/Heun loops (run, autonomous models) are in the correspondence stream only: torch = the same model, jax = spec_rows without the IndexError class; adaptive solvers are not covered by any theorem"])
